@@ -119,6 +119,19 @@ def run(chk):
         else:
             chk.violation("C07.gate", ph_nodes[0].ast, K.short(ph_nodes[0].ast), "(self._available_connections(key) <= 0) test",
                           "a path reaches the placeholder reservation without the capacity test", path=g.fmt_path(path))
+        # re-acquiring an idle pooled connection puts one more connection in use, exactly like the placeholder reservation: every call of
+        # _get() (which adds to _acquired) is reached only after a capacity test as well
+        gets = [n for n in K.nodes_matching(connect, "self._get($K, $T)") if n.in_finally_copy is None]
+        if not gets:
+            chk.analysis_error("C07.gate: no call of _get() in connect()")
+        for gn in gets:
+            pth = g.find_path([g.entry], lambda n, gn=gn: n is gn, cap_test, EXPLICIT)
+            if pth is None:
+                chk.ok("C07.gate", gn.ast, f"the pool is consulted (line {gn.lineno}) only after the capacity test")
+            else:
+                chk.violation("C07.gate", gn.ast, K.short(gn.ast, 60), "(self._available_connections(key) > 0) test before re-acquiring a pooled connection",
+                              "connect() re-acquires an idle pooled connection without consulting the limits: with limit=1, an idle connection to A in the pool and a request to B in flight, a new request to A goes out at once - two connections in use (and the request jumps the waiter queue)",
+                              path=g.fmt_path(pth))
         # the waiting branch must be taken exactly when no capacity: T-edge leads to the wait
         tests = [n for n in g.nodes if cap_test(n)]
         for t in tests:
@@ -267,6 +280,24 @@ def run(chk):
     if not handoff_ok:
         chk.violation("C07.handoff", awn, f"await {fut}", f"({fut}.done()) & !({fut}.cancelled()) -> self._release_waiter()",
                       "a waiter that was chosen by _release_waiter() and is then cancelled before running drops the wake-up: later waiters stay blocked although a slot is free")
+    # ... and so does a waiter that was woken but finds no capacity for *its* key (the release that woke it was for another host, or a
+    # second release in the same tick picked a waiter of a key whose first waiter had not run yet): it goes back to the queue, and the
+    # wake-up it consumed has to be passed on, otherwise a waiter of a key that does have capacity is never woken
+    gw = cfg_of(wait.node)
+    caps = [n for n in gw.nodes if n.kind == "test" and "_available_connections" in norm.raw(n.ast) and n.in_finally_copy is None]
+    if not caps:
+        chk.analysis_error("C07.handoff: capacity re-check after the wait not found in _wait_for_available_connection")
+    else:
+        neg = "F" if PC.has_lit(norm.cnf_raw(caps[0].ast, True), "self._available_connections(key) > 0", True) is not None or ">" in norm.raw(caps[0].ast) else "T"
+        heads = [n for n in gw.nodes if n.kind == "stmt" and isinstance(n.ast, (ast.Assign, ast.AnnAssign)) and "create_future()" in norm.raw(n.ast)]
+        rel = lambda n: K.node_has(n, "self._release_waiter()")
+        pth = gw.find_path(None, lambda n: n in heads, rel, EXPLICIT, [(caps[0], neg)])
+        if pth is None:
+            chk.ok("C07.handoff", caps[0].ast, "a woken waiter that finds no capacity for its key passes the wake-up on before it queues again")
+        else:
+            chk.violation("C07.handoff", caps[0].ast, K.short(caps[0].ast, 60), "self._release_waiter() before waiting again",
+                          "a waiter that was woken but finds its own key still at capacity queues again and drops the wake-up it consumed: with limit=2, limit_per_host=1, two releases in one tick can both wake waiters of host A; the second re-queues silently and the waiter for host B, which has a free slot, waits until its timeout",
+                          path=gw.fmt_path(pth))
     # dequeue in finally
     fin_ok = False
     for t in prog.enclosing(awn, (ast.Try,)):
